@@ -9,6 +9,7 @@ import Golib.Model.C08
 import Golib.Model.C09Crypt
 import Golib.Model.C09Md5
 import Golib.Model.C09Enc
+import Golib.Model.C09Arena
 
 namespace Golib.C09
 open Golib.Proto Golib.C08
@@ -117,6 +118,23 @@ def step (t : List String) : String :=
       else match parseReader rd ct with
         | some r => showR (showW true) (decryptStreamTo (primsFor ((ct.drop 8).take 8) secret ct.length) .readFull secret r out)
         | none => "bad-op"
+    | _, _, _ => "bad-op"
+  -- BUFFER-LEVEL ops (answered by the arena model `C09Arena.lean`): SaltBySecret*Decrypt with
+  -- reuseCipherText = true, and what the caller's ciphertext buffer holds afterwards, whatever the outcome
+  | ["reuse-cbc-left", secret, ct] => match unhex secret, unhex ct with
+    | some secret, some ct =>
+      let m : C08.Arena.Mem := { cells := ct, log := [] }
+      let w : C08.Arena.Win := { off := 0, len := ct.length, cap := ct.length }
+      let r := Arena.saltBySecretCBCDecryptA (prims 0) m w secret
+      (match r.2 with | .panic => "panic" | o => showR hex o ++ " ct=" ++ hex r.1.cells)
+    | _, _ => "bad-op"
+  | ["reuse-gcm-left", secret, ad, ct] => match unhex secret, unhex ad, unhex ct with
+    | some secret, some ad, some ct =>
+      let m : C08.Arena.Mem := { cells := ct ++ ad, log := [] }
+      let w : C08.Arena.Win := { off := 0, len := ct.length, cap := ct.length }
+      let a : C08.Arena.Win := { off := ct.length, len := ad.length, cap := ad.length }
+      let r := Arena.saltBySecretGCMDecryptA (prims 0) m w secret a
+      (match r.2 with | .panic => "panic" | o => showR hex o ++ " ct=" ++ hex (r.1.cells.take ct.length))
     | _, _, _ => "bad-op"
   | ["ctr", key, iv, n] => match unhex key, unhex iv, n.toNat? with
     -- the model's CTR keystream itself (compared with crypto/cipher's, not with /repo code)
